@@ -10,6 +10,7 @@ hypothesis `c.gps S (List.ofFn λ) = List.ofFn (gpsSpec P y a S λ)` (the statem
 region of `divide_and_truncate`).
 -/
 import StirVerif.C07.ProofsRun
+import StirVerif.C07.ProofsPost
 import StirVerif.C07.ProofsLogLikCast
 import Mathlib.Data.Fin.VecNotation
 import Mathlib.Tactic.FinCases
@@ -31,7 +32,11 @@ theorem C07_em_formula_voxel (n : Nat) (limit : Bool) (minRel maxRel lam g s pg 
 
 /-- … the same for the whole image, with the data given by an explicit non-negative system matrix `P`, counts `y`,
     additive term `a`, efficiencies `eff` and the bins `S` of the subset: `update_estimate` produces exactly
-    `emStep = λ_j · Σ_{b∈S} P_bj y_b / ((Pλ)_b + a_b) / Σ_{b∈S} P_bj eff_b` (0 where the denominator is 0). -/
+    `emStep = λ_j · Σ_{b∈S} P_bj y_b / ((Pλ)_b + a_b) / Σ_{b∈S} P_bj eff_b` (0 where the denominator is 0).
+    (`updateEstimate` is validated against the real class on span-1 and span-3, view-mashed and time-of-flight geometries.
+    The theorem is stated for ONE matrix `P` in `hg` and `hs`: non-TOF data, or TOF data with TOF sensitivities.  With STIR's
+    default `use time-of-flight sensitivities := 0` the sensitivity of TOF data comes from the non-TOF matrix, so `hs`
+    holds for another matrix than `hg`; the harness then evaluates the formula with exactly these two matrices.) -/
 theorem C07_em_formula {nb nv : ℕ} (c : Cfg) (k : Nat)
     (P : Fin nb → Fin nv → ℚ) (y a eff : Fin nb → ℚ) (S : Finset (Fin nb)) (lam : Fin nv → ℚ)
     (hmap : c.map = .none) (hfilt : c.interUpdateFilter = none)
@@ -154,7 +159,11 @@ theorem C07_setUp_id_iff (c : Cfg) (img : Img) :
     image: `enforce_initial_positivity = false`, or image_k strictly positive (by `C07_setUp_id_iff` this is exactly
     "`set_up` leaves image_k alone"; the inputs excluded are those of the known finding
     `restart:enforce-initial-positivity-lifts-exact-zeros`, see the negative witnesses below).
-    (`hfull`: no non-finite value occurred up to `k`.)  Fixed subset order only (randomised order: C06). -/
+    (`hfull`: no non-finite value occurred up to `k`.)  Fixed subset order only (randomised order: C06).
+    `reconstruct c = reconstructPost c none` (`C07_reconstructPost_none`) and the no-argument `reconstruct()` driven by a
+    parameter file is `reconstructNoArg = reconstructPost ∘ setUp ∘ initialData`, so this is also the statement for
+    restarts made with `initial estimate` / `start at subiteration number` (spelled out, with a post-filter, in
+    `C07_restart_eq_post_partial` and `C07_restart_eq_noarg_partial`). -/
 theorem C07_restart_eq_partial (c : Cfg) (start k last : Nat) (img : Img) (h1 : start ≤ k + 1) (h2 : k ≤ last)
     (hfull : (reconstruct c start k img).length = k + 1 - start)
     (hpos : c.enforceInitialPositivity = false ∨ ∀ x ∈ (reconstruct c start k img).getLastD img, 0 < x) :
@@ -259,6 +268,123 @@ example : reconstruct restartWitnessSens 1 2 [1, 1] =
   norm_num [reconstruct, runFrom, subIter, updateEstimate, restartWitnessSens, restartWitness, subsetNum, smallValue, maxElem,
     divideSmallNum, interUpdateFiltered, zip4With, updVoxel, denom, divide1, absR, mulExt, thresholdUpperLower, allFin,
     endOfIteration, setUp]
+
+/-! ## Post-filter, the no-argument `reconstruct()` of parameter files, the written update image
+
+The model functions `endOfIterationPost` / `reconstructPost` (post-filter of `Reconstruction::set_post_processor_sptr`, key
+`post-filter type`), `initialData` / `reconstructNoArg` (`get_initial_data_ptr` + the no-argument `reconstruct()`, keys
+`initial estimate` and `start at subiteration number`) and `updateImage` (`write update image`) extend the model to the
+way users run OSMAPOSL.  `reconstructPost c none = reconstruct c` (`C07_reconstructPost_none`), so every theorem above
+about `reconstruct` (non-negativity of every iterate, restart) is a theorem about the run as the executable makes it
+when no post-filter is set; the theorems below are the restart clause with a post-filter and through parameter files. -/
+
+/-- without a post-filter the extended run is the run of the theorems above -/
+theorem C07_reconstructPost_none (c : Cfg) (start last : Nat) (img : Img) :
+    reconstructPost c none start last img = reconstruct c start last img :=
+  reconstructPost_none c start last img
+
+/-- The post-filter touches the LAST iterate only ("produces the same images": all saved iterates before the last one are
+    those of the run without post-filter, the last one is the post-filtered last iterate of that run): for a run from
+    `start ≥ 1` to `last ≥ start` whose first `last - start` sub-iterations stay finite (`hfull`), with
+    `x` the iterate `last - 1`,
+    `reconstructPost = reconstruct start (last-1) ++ [post (subIter last x)]` and
+    `reconstruct     = reconstruct start (last-1) ++ [subIter last x]`. -/
+theorem C07_post_filter_only_last (c : Cfg) (post : Option (Img → Img)) (start last : Nat) (img : Img)
+    (h0 : 1 ≤ start) (h : start ≤ last)
+    (hfull : (reconstruct c start (last - 1) img).length = last - start) :
+    reconstructPost c post start last img =
+        reconstruct c start (last - 1) img ++
+          ((subIter c last ((reconstruct c start (last - 1) img).getLastD img)).map (postApply post)).toList ∧
+      reconstruct c start last img =
+        reconstruct c start (last - 1) img ++
+          (subIter c last ((reconstruct c start (last - 1) img).getLastD img)).toList := by
+  have e : last - 1 + 1 = last := by omega
+  have hf : (reconstruct c start (last - 1) img).length = last - 1 + 1 - start := by rw [hfull]; omega
+  constructor
+  · rw [reconstructPost_split c post start (last - 1) last img (by omega) (by omega) hf, e, reconstructPost_last]
+  · rw [reconstruct_split c start (last - 1) last img (by omega) (by omega) hf, e, reconstruct_last]
+
+/-- "A reconstruction resumed at sub-iteration k+1 from the image saved after sub-iteration k produces the same images as
+    the uninterrupted run" WITH a post-filter set in both runs, resuming before the last sub-iteration (`k < last`; the
+    image saved after the last sub-iteration is post-filtered and is not a state of the iteration): the images saved up
+    to `k` are those of the run without post-filter, and the resumed run (post-filter set) gives the rest, the
+    post-filtered last one included.  Side condition as in `C07_restart_eq_partial`: `set_up` of the resumed run must not
+    change the saved image. -/
+theorem C07_restart_eq_post_partial (c : Cfg) (post : Option (Img → Img)) (start k last : Nat) (img : Img)
+    (h1 : start ≤ k + 1) (h2 : k < last)
+    (hfull : (reconstruct c start k img).length = k + 1 - start)
+    (hpos : c.enforceInitialPositivity = false ∨ ∀ x ∈ (reconstruct c start k img).getLastD img, 0 < x) :
+    reconstructPost c post start last img =
+      reconstruct c start k img ++
+        reconstructPost c post (k + 1) last (setUp c ((reconstruct c start k img).getLastD img)) := by
+  rw [setUp_id c _ hpos]
+  exact reconstructPost_split c post start k last img h1 h2 hfull
+
+/-- … at full strength (zeros in the saved image included) when the resumed run is made with
+    `enforce initial positivity condition := 0` -/
+theorem C07_restart_eq_post_option_off (c : Cfg) (post : Option (Img → Img)) (start k last : Nat) (img : Img)
+    (h1 : start ≤ k + 1) (h2 : k < last)
+    (hfull : (reconstruct c start k img).length = k + 1 - start) :
+    reconstructPost c post start last img =
+      reconstruct c start k img ++
+        reconstructPost { c with enforceInitialPositivity := false } post (k + 1) last
+          (setUp { c with enforceInitialPositivity := false } ((reconstruct c start k img).getLastD img)) := by
+  rw [setUp_id _ _ (Or.inl rfl)]
+  simp only [reconstructPost]
+  rw [runFromPost_enforce_irrelevant c post last false]
+  exact reconstructPost_split c post start k last img h1 h2 hfull
+
+/-- The restart as users make it: a parameter file with `initial estimate := <image saved after k>` and
+    `start at subiteration number := k+1`, run by the no-argument `reconstruct()` (`reconstructNoArg`:
+    `get_initial_data_ptr`, `set_up`, `reconstruct(target)`), continues the run that a parameter file with
+    `initial estimate := 0 | 1 | <file>` started at sub-iteration 1: with `x₀ = set_up (initial image)` and
+    `image_k` the image saved after `k < last`,
+    `reconstructNoArg init 1 last = (iterates 1..k) ++ reconstructNoArg (file image_k) (k+1) last`
+    — under the side condition of `C07_restart_eq_partial` on `image_k` (the excluded inputs are those of the known
+    finding `restart:enforce-initial-positivity-lifts-exact-zeros`). -/
+theorem C07_restart_eq_noarg_partial (c : Cfg) (post : Option (Img → Img)) (nvox : Nat) (init : InitialEstimate)
+    (k last : Nat) (h2 : k < last)
+    (hfull : (reconstruct c 1 k (setUp c (initialData nvox init))).length = k)
+    (hpos : c.enforceInitialPositivity = false ∨
+      ∀ x ∈ (reconstruct c 1 k (setUp c (initialData nvox init))).getLastD (setUp c (initialData nvox init)), 0 < x) :
+    reconstructNoArg c post nvox init 1 last =
+      reconstruct c 1 k (setUp c (initialData nvox init)) ++
+        reconstructNoArg c post nvox
+          (.file ((reconstruct c 1 k (setUp c (initialData nvox init))).getLastD (setUp c (initialData nvox init))))
+          (k + 1) last := by
+  unfold reconstructNoArg
+  have e : ∀ x, initialData nvox (.file x) = x := fun _ => rfl
+  rw [e]
+  exact C07_restart_eq_post_partial c post 1 k last _ (by omega) h2 (by rw [hfull]; omega) hpos
+
+/-- The image written by `write update image` is the multiplicative update that is applied: the image after
+    `update_estimate` is, voxel by voxel, the (inter-update filtered) image before times the written update limited to
+    `[minimum relative change, maximum relative change]` (limits from sub-iteration 2 on) — "maps the image lambda to
+    lambda * A_S^T[y / (A_S lambda + a)] / s_S voxelwise" with the second factor observable in a file. -/
+theorem C07_update_image_applied (c : Cfg) (k : Nat) (img : Img) :
+    updateEstimate c k img =
+      List.zipWith (fun lam u => mulExt lam (limitUpdate c k u)) (interUpdateFiltered c k img) (updateImage c k img) :=
+  updateEstimate_eq_updateImage c k img
+
+/-- non-vacuity, computed: witness configuration with the option off and the post-filter "+1": the uninterrupted run
+    saves `[2,0]` and the post-filtered `[3,1]`; the run resumed at 2 from `[2,0]` saves `[3,1]` -/
+example : reconstructPost { restartWitness with enforceInitialPositivity := false } (some (List.map (· + 1))) 1 2 [1, 1]
+      = [[2, 0], [3, 1]] ∧
+    reconstructPost { restartWitness with enforceInitialPositivity := false } (some (List.map (· + 1))) 2 2
+      (setUp { restartWitness with enforceInitialPositivity := false } [2, 0]) = [[3, 1]] ∧
+    reconstructNoArg { restartWitness with enforceInitialPositivity := false } (some (List.map (· + 1))) 2 .ones 1 2
+      = [[2, 0], [3, 1]] := by
+  refine ⟨?_, ?_, ?_⟩ <;>
+  norm_num [reconstructNoArg, initialData, reconstructPost, runFromPost, subIterPost, endOfIterationPost, updateEstimate,
+    restartWitness, subsetNum, smallValue, maxElem, divideSmallNum, interUpdateFiltered, zip4With, updVoxel, denom, divide1,
+    absR, mulExt, thresholdUpperLower, allFin, endOfIteration, setUp, List.replicate]
+
+/-- the hypotheses of `C07_restart_eq_noarg_partial` hold there (`k = 1 < last = 2`, one finite iterate, option off) -/
+example : (reconstruct { restartWitness with enforceInitialPositivity := false } 1 1
+    (setUp { restartWitness with enforceInitialPositivity := false } (initialData 2 .ones))).length = 1 := by
+  norm_num [initialData, reconstruct, runFrom, subIter, updateEstimate, restartWitness, subsetNum, smallValue, maxElem,
+    divideSmallNum, interUpdateFiltered, zip4With, updVoxel, denom, divide1, absR, mulExt, thresholdUpperLower, allFin,
+    endOfIteration, setUp, List.replicate]
 
 /-! ## Non-vacuity: concrete instances satisfying the hypotheses -/
 
